@@ -88,7 +88,16 @@ def check_case(case, ctx, tm, fsr, mr):
 
     def guard(clause, key, fn):
         try:
-            return fn()
+            r = fn()
+            # a returned pose is one pose however it is read (matrix or six-vector)
+            for x in (r if isinstance(r, (list, tuple)) else [r]):
+                if hasattr(x, "gTM") and hasattr(x, "gTAA"):
+                    sd = tol.tm_sides_differ(x)
+                    if sd is not None and sd[0] > sd[1]:
+                        ctx.clause(clause)
+                        ctx.violation(clause, key + "/result_reads_differently", {"err": sd[0], "tol": sd[1]}, case)
+                        return None
+            return r
         except Exception as e:
             ctx.clause(clause)
             ctx.violation(clause, key + "/raises/" + type(e).__name__, {"exc": repr(e)[:300]}, case)
